@@ -118,7 +118,8 @@ def struct_hash(net):
     for n, mod in net.named_modules():
         hp = {k: repr(getattr(mod, k)) for k in ('in_channels', 'out_channels', 'kernel_size', 'stride', 'padding', 'dilation', 'groups',
                                                   'in_features', 'out_features', 'num_features', 'eps', 'momentum', 'p') if hasattr(mod, k)}
-        items.append((n, type(mod).__name__, hp))
+        # the class name of the root GraphModule is cosmetic (fx names it after the traced module's class)
+        items.append((n, type(mod).__name__ if n else 'root', hp))
     sd = [(k, th(v)) for k, v in net.state_dict().items()]
     code = getattr(net, 'code', '')
     return hj([items, sd, code])
